@@ -125,51 +125,66 @@ def run(chk, rules=None, as_prop=None):
                f"guard {g.reason} fires for {sorted(vs)} on state {sorted(g.atoms) or 'nothing'} that an element-wise / "
                "single-summarize pipeline can reach: pipelines the property promises never to need a subquery would raise SubqueryError")  # fmt: skip
 
-    # ---- G2 recording
+    # (G2 reads the per-verb slices of Cache.update and compile_ast: when one of them is no isinstance dispatch any more the
+    # block is undecided - what the cache records is then only decided by the typestate exploration G9)
+    from ..dispatch import Unsliceable as _Unsl
+
     sib = get_siblings(chk)
     cfg_sql, cfg_cache = sib.cfgs["sql"], sib.cfgs["cache"]
-    res = cfg_cache.outputs["SEL"].split(".")[0]
-    n_g2 = 0
-    for v in sib.verbs:
-        s_items = Slicer(sym, cfg_sql.module, cfg_sql.subject, v).slice(cfg_sql.func.body)
-        c_items = Slicer(sym, cfg_cache.module, cfg_cache.subject, v).slice(cfg_cache.func.body)
-        written = query_fields_written(s_items)
-        cache_written = set()
+    mk = sym.cls("SubqueryMarker")
+
+    def _g2():
+        # ---- G2 recording
+        sib = get_siblings(chk)
+        cfg_sql, cfg_cache = sib.cfgs["sql"], sib.cfgs["cache"]
+        res = cfg_cache.outputs["SEL"].split(".")[0]
+        n_g2 = 0
+        for v in sib.verbs:
+            s_items = Slicer(sym, cfg_sql.module, cfg_sql.subject, v).slice(cfg_sql.func.body)
+            c_items = Slicer(sym, cfg_cache.module, cfg_cache.subject, v).slice(cfg_cache.func.body)
+            written = query_fields_written(s_items)
+            cache_written = set()
+            for st, _ in flat(c_items):
+                if isinstance(st, ast.Assign):
+                    for t in st.targets:
+                        if isinstance(t, ast.Attribute) and norm(t.value) == res:
+                            cache_written.add(t.attr)
+            for f in sorted(written & set(MIRRORS)):
+                n_g2 += 1
+                chk.ob("G2", cfg_cache.module, cfg_cache.func, f"{v.name}: query.{f} -> cache.{MIRRORS[f]}", MIRRORS[f] in cache_written,
+                       f"the SQL slice of `{v.name}` writes query.{f} but Cache.update does not record `{MIRRORS[f]}`: later verbs "
+                       "are not told that the SELECT already has this clause, so the guards cannot fire")  # fmt: skip
+        chk.floor("G2", "mirrored query-field writes", n_g2, 4)
+        _join_filter_flag(chk, sym, sib)
+        mk = sym.cls("SubqueryMarker")
+        c_items = Slicer(sym, cfg_cache.module, cfg_cache.subject, mk).slice(cfg_cache.func.body)
+        reset = {}
         for st, _ in flat(c_items):
             if isinstance(st, ast.Assign):
                 for t in st.targets:
                     if isinstance(t, ast.Attribute) and norm(t.value) == res:
-                        cache_written.add(t.attr)
-        for f in sorted(written & set(MIRRORS)):
-            n_g2 += 1
-            chk.ob("G2", cfg_cache.module, cfg_cache.func, f"{v.name}: query.{f} -> cache.{MIRRORS[f]}", MIRRORS[f] in cache_written,
-                   f"the SQL slice of `{v.name}` writes query.{f} but Cache.update does not record `{MIRRORS[f]}`: later verbs "
-                   "are not told that the SELECT already has this clause, so the guards cannot fire")  # fmt: skip
-    chk.floor("G2", "mirrored query-field writes", n_g2, 4)
-    _join_filter_flag(chk, sym, sib)
-    mk = sym.cls("SubqueryMarker")
-    c_items = Slicer(sym, cfg_cache.module, cfg_cache.subject, mk).slice(cfg_cache.func.body)
-    reset = {}
-    for st, _ in flat(c_items):
-        if isinstance(st, ast.Assign):
-            for t in st.targets:
-                if isinstance(t, ast.Attribute) and norm(t.value) == res:
-                    reset[t.attr] = norm(st.value)
-    # a subquery starts a fresh SELECT: the clause-state fields get the value a fresh source table has (Cache.from_ast)
-    fresh = {}
-    fa = cache.func("Cache.from_ast")
-    for c_ in ast.walk(fa):
-        if isinstance(c_, ast.Call) and isinstance(c_.func, ast.Name) and c_.func.id == "Cache" and c_.keywords:
-            fresh = {k.arg: norm(k.value) for k in c_.keywords}
-    state_fields = sorted(set(MIRRORS.values()) | {f for f in fresh if f.startswith("is_")})
-    for f in state_fields:
-        val = fresh.get(f)
-        chk.ob("G2", cfg_cache.module, cfg_cache.func, f"SubqueryMarker resets cache.{f} to its fresh value {val}", val is not None and reset.get(f) == val,
-               f"after a subquery marker the cache keeps `{f}` = {reset.get(f)!r} (a fresh table has {val!r}): verbs after the subquery would be refused "
-               "(or accepted) according to the state of the inner SELECT")  # fmt: skip
-    # the marker makes every column a plain element-wise column of the subquery
-    chk.ob("G2", cfg_cache.module, cfg_cache.func, "SubqueryMarker re-types columns as ELEMENT_WISE", "ELEMENT_WISE" in reset.get("cols", ""),
-           "columns keep their window / aggregate function type across a subquery marker")  # fmt: skip
+                        reset[t.attr] = norm(st.value)
+        # a subquery starts a fresh SELECT: the clause-state fields get the value a fresh source table has (Cache.from_ast)
+        fresh = {}
+        fa = cache.func("Cache.from_ast")
+        for c_ in ast.walk(fa):
+            if isinstance(c_, ast.Call) and isinstance(c_.func, ast.Name) and c_.func.id == "Cache" and c_.keywords:
+                fresh = {k.arg: norm(k.value) for k in c_.keywords}
+        state_fields = sorted(set(MIRRORS.values()) | {f for f in fresh if f.startswith("is_")})
+        for f in state_fields:
+            val = fresh.get(f)
+            chk.ob("G2", cfg_cache.module, cfg_cache.func, f"SubqueryMarker resets cache.{f} to its fresh value {val}", val is not None and reset.get(f) == val,
+                   f"after a subquery marker the cache keeps `{f}` = {reset.get(f)!r} (a fresh table has {val!r}): verbs after the subquery would be refused "
+                   "(or accepted) according to the state of the inner SELECT")  # fmt: skip
+        # the marker makes every column a plain element-wise column of the subquery
+        chk.ob("G2", cfg_cache.module, cfg_cache.func, "SubqueryMarker re-types columns as ELEMENT_WISE", "ELEMENT_WISE" in reset.get("cols", ""),
+               "columns keep their window / aggregate function type across a subquery marker")  # fmt: skip
+
+
+    try:
+        _g2()
+    except _Unsl as e:
+        chk.undecided.append(f"G2: {str(e)[:200]}")
 
     # ---- G8 the state atom WINDOWED is only as good as ftype(): every child must contribute
     n8 = 0
